@@ -404,6 +404,15 @@ def check_gap(case):
                     'maxiter %d: %d breakpoint(s) dropped (mask %s), returned point mask %s, closest candidate differs by %.3g'
                     % (case['maxiter'], ndrop, bm.astype(int).tolist(), mask.astype(int).tolist(), best)))
     nfail = sum(1 for st in statuses if st != 0)
+    # the returned mask must be one the documented loop produces: when the failed fits (no rejection follows a failed fit)
+    # all precede the successful ones, every successful fit ran on the surviving breakpoints, so the chain
+    # good points -> reject(fit) -> reject(refit) ... on those breakpoints contains the returned mask
+    if all(isinstance(st, (int, np.integer)) for st in statuses) and nfail < len(statuses) and all(int(st) != 0 for st in statuses[:nfail]):
+        _f, chain, _conv, cstatus = reference_loop(ts, k, x, y, w, thresholds(case)[0], thresholds(case)[1], len(statuses) - nfail)
+        if cstatus == 'ok' and not any(np.array_equal(mask, cm) for cm in chain):
+            bad.append(('iterfit:gap:mask-not-produced-by-documented-loop',
+                        'maxiter %d: fit statuses %s; masks of the documented loop on the surviving breakpoints %s; got %s'
+                        % (case['maxiter'], [int(st) for st in statuses], [cm.astype(int).tolist() for cm in chain], mask.astype(int).tolist())))
     out = 'ok:gap:drop%d:failedfits%d:rej%d' % (ndrop, nfail, len(R)) if not bad else 'bad:' + bad[0][0]
     return bad, out, True, None
 
@@ -432,6 +441,9 @@ def check_weights(case):
 
 
 # ------------------------------------------------------------------ enumeration
+# input orders of the too-few-good-points layer: sorted, reversed, every rotation, odd/even interleave, two fixed shuffles
+WPERMS = ([None, list(range(6, -1, -1))] + [list(range(r, 7)) + list(range(r)) for r in range(1, 7)]
+          + [[0, 2, 4, 6, 1, 3, 5], [3, 0, 5, 1, 6, 2, 4], [2, 6, 0, 3, 5, 1, 4]])
 KNOTS7 = [['nbkpts', 2], ['nbkpts', 3], ['bkspace', 2.5]]
 KNOTS12 = [['nbkpts', 2], ['nbkpts', 3], ['bkspace', 5.5], ['nbkpts', 8]]     # bkspace 5.5: the 12-point range (11) is a whole multiple    # nbkpts=8: intervals holding exactly one point
 KNOTSTIE = [['nbkpts', 2], ['nbkpts', 3]]
@@ -580,7 +592,7 @@ def run_task(task):
                     for good in itertools.combinations(range(7), ngood):
                         zero = [p for p in range(7) if p not in good]
                         for m in (0, 10):
-                            for perm in (None, list(range(6, -1, -1))):
+                            for perm in WPERMS:
                                 case = {'part': 'W', 'n': 7, 'k': k, 'knots': kn, 'zero': zero, 'out': [], 'ivpat': 0,
                                         'upper': 5, 'lower': 5, 'maxiter': m, 'perm': perm}
                                 bad, out = check_weights(case)
